@@ -13,7 +13,7 @@ ASSUMPTIONS = ["reference vf/ref/ec.py, self-tested against published RFC 6979 s
 NSHARDS = {"quick": 32, "thorough": 64}
 BUDGET_S = {"quick": 200, "thorough": 1800}
 MIN_HITS = {
-    'quick': {"mode_det": 1664, "mode_k": 416, "mode_rand": 416, "mode_digest": 416, "mode_msg": 416, "reverse_k": 1040, "edge_key": 1208, "ecdh": 416, "neg_verify": 14976},
+    'quick': {"mode_det": 2528, "mode_k": 416, "mode_rand": 416, "mode_digest": 416, "mode_msg": 416, "reverse_k": 1032, "edge_key": 1376, "ecdh": 992, "neg_verify": 23072},
     'thorough': {"mode_det": 92160, "mode_k": 23040, "mode_rand": 23040, "mode_digest": 23040, "mode_msg": 23040, "reverse_k": 57660, "edge_key": 65016, "ecdh": 23040, "neg_verify": 506880},
 }
 EDGE = [1, 2, 3, (ec.N - 1) // 2, (ec.N + 1) // 2, ec.N - 2, ec.N - 1]
